@@ -392,6 +392,16 @@ def stepIndicator (d : Drv) (line : String) : Drv × Option String :=
                   -- p/√q with the exact radicand zero up to the allowance (the code returns 0 when its own radicand is not positive)
                   let aD := ctx.allow (κd * ctx.M * ctx.M)
                   (den ≤ 2 * aD, false)
+                | some (.approx _ _ _) =>
+                  -- ADX: |+DI − −DI| / (+DI + −DI) behind `s == 0.`: when both exact directional averages vanish up to the
+                  -- allowance the quotient is one of rounding residues
+                  if i.name == "AverageDirectionalIndex" && slot == 0 then
+                    let tiny (e : Option VExp) : Bool := match e with
+                      | some (.quot num _ κn _ sc _ _) => ratAbs num ≤ ctx.allow (κn * scaleOf ctx sc)
+                      | some (.exact q) => q == 0
+                      | _ => false
+                    (tiny so.vals[1]? && tiny so.vals[2]?, false)
+                  else (false, false)
                 | _ => (false, false)
               -- no guard in the code and a zero exact denominator: the formula is not defined there (zero total volume)
               if undefined then ({ d with cs := .ind i, exempt := d.exempt + 1 }, none)
